@@ -81,6 +81,7 @@ pub enum OpK {
     Yield,
     Sleep,
     SpawnActor,
+    Fork,
     // registry
     FromRegistry,
     Setup,
@@ -154,6 +155,8 @@ pub enum K {
     TimerReg { id: Uid, actor: u32, tag: u32, kind: &'static str, dur: u64 },
     /// strong-handle reference model (interpreter's view): delta for actor `tag`
     Ref { tag: u32, hk: Hk, delta: i8, c: u16 },
+    /// the handle whose release was announced by the preceding `Ref{delta:-1}` is now really gone
+    RefGone { tag: u32, hk: Hk, c: u16 },
     /// harness actor value dropped
     ObjDrop { obj: Uid, tag: u32 },
     /// stream probe: item `n` yielded by harness stream `sid`
